@@ -415,8 +415,30 @@ def ref_expand(line, objs, funs):
                 while k < n and line[k] in " \t":
                     k += 1
                 if k < n and line[k] == "(":
-                    close = line.index(")", k)
-                    args = [a for a in line[k + 1:close].split(",")]
+                    # arguments end at commas outside nested parentheses and character literals
+                    args, cur, depth, quote, close = [], "", 0, "", None
+                    for q2 in range(k + 1, n):
+                        ch2 = line[q2]
+                        if quote:
+                            cur += ch2
+                            if ch2 == quote:
+                                quote = ""
+                        elif ch2 in "'\"":
+                            quote = ch2; cur += ch2
+                        elif ch2 in "([":
+                            depth += 1; cur += ch2
+                        elif ch2 in ")]":
+                            if depth == 0:
+                                close = q2
+                                break
+                            depth -= 1; cur += ch2
+                        elif ch2 == "," and depth == 0:
+                            args.append(cur); cur = ""
+                        else:
+                            cur += ch2
+                    if close is None:
+                        out.append(word); i = j; continue
+                    args.append(cur)
                     params, body = funs[word]
                     if len(args) == len(params):
                         res = []
@@ -459,7 +481,9 @@ def check_macros(ctx, n):
             if kind == "obj":
                 uses.append("y = %s + 1" % rng.choice(list(objs)))
             elif kind == "fun" and funs:
-                uses.append("z = FN(%s, %s)" % (rng.choice(["1", "a", "b+3"]), rng.choice(["2", "c"])))
+                arg = lambda: rng.choice(["1", "a", "b+3", "g(1,2)", "'a,b'", "(/ 1, 2 /)", "h(k(1), 2)", " c "])
+                fmt = rng.choice(["z = FN(%s, %s)", "z = FN(%s,%s) * FN(%s, %s)", "call s(FN(%s, %s), 3)", "z = FN (%s, %s) + FN(1)"])
+                uses.append(fmt % tuple(arg() for _ in range(fmt.count("%s"))))
             elif kind == "near":
                 uses.append("w = x%s + %s_z" % (rng.choice(list(objs)), rng.choice(list(objs))))   # not whole words
             else:
@@ -476,7 +500,7 @@ def check_macros(ctx, n):
             ctx.report("C08:macro-expansion", "macro uses in active code are not replaced by their bodies character for character",
                        {"kind": "counterexample", "input": {"lines": lines, "pp_defs": {}},
                         "implementation": err or out[len(lines) - len(uses):], "oracle": want})
-    # known finding: several calls of a function-like macro on one line
+    # regression (fixed): several calls of a function-like macro on one line
     lines = ["#define F(a,b) (a+b)", "x = F(1,2) * F(3,4)"]
     out, _, _, _ = preprocess_file(list(lines), pp_defs={})
     ctx.count(("macro-kf",), True)
@@ -545,7 +569,7 @@ def run(ctx):
     ctx.assumptions = [
         "well-formed conditional structure (every #elif/#else/#endif inside an open #if, nothing but #endif after #else, every #if closed)",
         "a name used as a value in a condition has an integer body; no redefinition of a defined name with another body",
-        "function-like macros with several calls per line / nested commas are a known finding (C08:function-macro-greedy)",
+        "function-like macro calls: arguments may contain nested parentheses and character literals; bodies never contain macro names (no rescanning)",
     ]
     ctx.cov["rule"] = ("exhaustive: all well-formed directive sequences up to a length bound over an alphabet of #if/#ifdef/#ifndef/#elif/#else/#endif/"
                        "#define/#undef/text with 8 condition atoms x initial tables; random: nested programs with condition trees of depth <= 3; "
